@@ -30,6 +30,18 @@ def run(ck, ctx):
                      "entry to its shard and then applies the deltas")
     ck.rule("R08.5", "every path through apply_remote_delta_impl and the ApplyRemoteDelta arm reaches "
                      "ShardReplicaState::apply_remote_delta (no early exit before the clock advances)")
+    ck.rule("R08.6", "a checkpoint keeps every stamp the node holds: the clock after a restart is re-derived from the recovered values, so "
+                     "the snapshot that becomes the checkpoint is the shards' replicated_keys handed over whole - tombstones included; no "
+                     "filter/retain between a shard's map and the checkpoint state, every shard asked (a dropped tombstone takes the stamp "
+                     "of its DEL with it: the next write after a restart is stamped lower than the delete its peers still hold)")
+    ck.rule("R08.7", "garbage collection does not make the node forget its own stamps: the shard clocks are not persisted - after a restart "
+                     "they are re-derived from the recovered values - so wherever persisted deltas are discarded (compaction's tombstone "
+                     "pass) the highest stamp seen must be persisted some other way (a clock / high-water field in the manifest or the "
+                     "recovered state that recovery feeds into LamportClock::update)")
+    ck.rule("R08.8", "peers never see a stamp the node can forget: in ReplicatedShardedState::execute the hand-over of a fresh delta to "
+                     "gossip (queue_deltas) comes after the WAL write of that delta - no path leads from a queue_deltas call to "
+                     "write_durable (with always-fsync a crash inside the group-commit window would otherwise restart the node below a "
+                     "stamp its peers already hold)")
     ck.nd("that the resulting stamp supersedes on every replica additionally needs C07 (merge algebra)")
     ck.nd("per-field stamps inside hash values larger than the outer stamp (value-level)")
     for cfg in ctx.configs:
@@ -41,6 +53,9 @@ def run(ck, ctx):
         _r083(ck, prog, cfg)
         _r084(ck, prog, cfg)
         _r085(ck, prog, cfg)
+        _r086(ck, prog, cfg)
+        _r087(ck, prog, cfg)
+        _r088(ck, prog, cfg)
 
 
 def _is_time_place(pl):
@@ -439,3 +454,84 @@ def _r085(ck, prog, cfg):
     ards = prog.one("production::replicated_state::ReplicatedShardedState::<T>::apply_remote_deltas")
     fw = [(b, t) for b, t in ards.calls() if is_callee(t, r"ReplicatedShardHandle::apply_remote_delta$")]
     ck.check(len(fw) >= 1, "R08.5", "router-forwards" + _tag(cfg), "apply_remote_deltas no longer forwards deltas to the shards", ards.where())
+
+
+NARROW = (r"Iterator>?::(filter|filter_map|take|skip|take_while|skip_while|step_by)(::<.*>)?$", r"HashMap::<.*>::(retain|remove|extract_if|drain)(::<.*>)?$")
+
+
+def _r086(ck, prog, cfg):
+    fs = [f for f in prog.lib_fns() if f.file == "src/production/replicated_state.rs" and re.search(r"ReplicatedShardedState::<T>::snapshot_state::\{closure#0\}$", f.id)]
+    if len(fs) != 1:
+        ck.anchor_lost("R08.6", "ReplicatedShardedState::snapshot_state not found")
+        return
+    f = fs[0]
+    bodies = prog.with_children(f)
+    narrow = [(g, t) for g in bodies for _, t in g.calls() if is_callee(t, *NARROW)]
+    ck.check(not narrow, "R08.6", "snapshot_state:whole-shard-snapshots" + _tag(cfg),
+             "the checkpoint snapshot is narrowed (%s) on its way from the shards: a value left out takes its stamp with it, and the restarted "
+             "node's clock no longer dominates every stamp it issued" % (callee(narrow[0][1]).rsplit("::", 1)[-1] if narrow else ""),
+             (narrow[0][0] if narrow else f).where(narrow[0][1]["ln"] if narrow else None), detail="no filter/retain/take in snapshot_state")
+    exts = [(b, t) for b, t in f.calls() if is_callee(t, r"Extend<.*>>::extend$", r"HashMap::<.*>::(extend|insert)$")]
+    heads = lib2.loop_heads(f)
+    ok = False
+    for b, t in exts:
+        mine = [h for h, (none_t, some_t, nb) in heads.items() if b == some_t or b in f.reach([some_t], avoid=[h])]
+        if mine and lib2.iteration_skips(f, mine[0], {b}) is None and not lib2.loop_cut(f, mine[0]):
+            ok = True
+    ck.check(ok, "R08.6", "snapshot_state:every-shard-merged-in" + _tag(cfg),
+             "not every shard's snapshot is merged into the checkpoint state on every path", f.where(), detail="for shard_snapshot in results { snapshot.extend(shard_snapshot) }")
+    asks = [(g, t) for g in bodies for _, t in g.calls() if is_callee(t, r"ReplicatedShardHandle::get_snapshot$")]
+    ck.check(len(asks) >= 1, "R08.6", "snapshot_state:asks-shards" + _tag(cfg), "snapshot_state does not ask the shards (get_snapshot)", f.where())
+    # the shard answers with its whole map
+    run = [g for g in prog.lib_fns() if g.file == "src/production/replicated_shard_actor.rs" and re.search(r"ReplicatedShardActor::run::\{closure#0\}$", g.id)]
+    good = False
+    for g in run:
+        for b, t in g.calls():
+            if is_callee(t, r"oneshot::Sender::<std::collections::HashMap<std::string::String, .*ReplicatedValue>>::send$"):
+                v = src_of_operand(g, t["args"][1], through_calls=TRANSPARENT)
+                good = v.kind == "path" and v.fields[-2:] == ("replica_state", "replicated_keys") or (v.kind == "path" and v.fields[-1:] == ("replicated_keys",))
+                ck.check(good, "R08.6", "GetSnapshot:whole-map" + _tag(cfg),
+                         "the shard answers GetSnapshot with %s, not with a clone of its whole replicated_keys map" % v.path(), g.where(t["ln"]),
+                         detail="replicated_keys.clone()")
+    ck.check(bool(run) and good, "R08.6", "GetSnapshot:found" + _tag(cfg), "the GetSnapshot arm (send of the shard's map) was not found", None)
+
+
+def _r087(ck, prog, cfg):
+    fs = [f for f in prog.lib_fns() if re.search(r"streaming::compaction::Compactor::<S, T>::compact::\{closure#0\}$", f.id)]
+    if len(fs) != 1:
+        ck.anchor_lost("R08.7", "Compactor::compact not found")
+        return
+    f = fs[0]
+    drops = [(g, t) for g in prog.with_children(f) for _, t in g.calls()
+             if is_callee(t, r"HashMap::<std::string::String, .*ReplicationDelta.*>::(retain|remove|extract_if)(::<.*>)?$")]
+    marks = []
+    for name in ("streaming::manifest::Manifest", "streaming::manifest::SegmentInfo", "streaming::manifest::CheckpointInfo",
+                 "streaming::recovery::RecoveredState"):
+        adt = prog.adts.get(name)
+        for v in (adt or {}).get("variants", []):
+            for fld in v["fields"]:
+                if "LamportClock" in fld["t"] or re.search(r"clock|high_water|max_stamp|lamport", fld["n"]):
+                    marks.append("%s.%s" % (name.rsplit("::", 1)[-1], fld["n"]))
+    if not drops:
+        ck.ok("R08.7", "compact:no-drop-site" + _tag(cfg), "compaction discards no folded delta")
+        return
+    g, t = drops[0]
+    ck.check(bool(marks), "R08.7", "compact:tombstone-gc-drops-stamps" + _tag(cfg),
+             "compaction removes deltas from the persisted state (%s at line %s) while nothing else persists the clock: after a restart from the "
+             "compacted segments the shard clock is re-derived from what is left, so the node can stamp a new write below a DEL it issued "
+             "before the restart and its peers refuse the acknowledged write (witness: witness/kf_witness_5.rs)"
+             % (callee(t).rsplit("::", 1)[-1], t["ln"]), g.where(t["ln"]), detail="clock persisted in %s" % marks)
+
+
+def _r088(ck, prog, cfg):
+    fn = prog.one("production::replicated_state::ReplicatedShardedState::<T>::execute::{closure#0}")
+    qs = [(b, t) for b, t in fn.calls() if is_callee(t, r"::queue_deltas$")]
+    ws = [(b, t) for b, t in fn.calls() if is_callee(t, r"WalActorHandle::write_(durable|fire_and_forget)$")]
+    ck.check(len(qs) >= 1 and len(ws) >= 1, "R08.8", "execute:sites" + _tag(cfg),
+             "queue_deltas / WAL write sites not found in ReplicatedShardedState::execute (%d, %d)" % (len(qs), len(ws)), fn.where())
+    for k, (qb, qt) in enumerate(qs):
+        later = [wt for wb, wt in ws if wb in fn.reach([qb])]
+        ck.check(not later, "R08.8", "execute:gossip-after-wal#%d%s" % (k, _tag(cfg)),
+                 "a delta is handed to gossip (line %s) before it is written to the WAL (line %s): peers can hold a stamp that a crash makes "
+                 "this node forget, so a write acknowledged after the restart can be stamped at or below it" % (qt["ln"], later[0]["ln"] if later else "?"),
+                 fn.where(qt["ln"]), detail="queue_deltas only after the WAL write")
